@@ -768,7 +768,7 @@ func (s *sys) apply(sd *side, which int, o op, idx int) (out stepOut) {
 		orig := o.Thru + "." + o.C.Op
 
 		if o.Store == "file" {
-			sd.files[o.Slot], sd.forig[o.Slot], sd.fopen[o.Slot], sd.flog[o.Slot] = f, orig, o.C.String(), nil
+			sd.files[o.Slot], sd.forig[o.Slot], sd.fopen[o.Slot], sd.flog[o.Slot] = f, orig, o.Thru+"."+o.C.String(), nil
 		} else {
 			cctx := callCtx{Idx: idx, Part: "close", Via: "file", Method: "Close", Variant: originClass(orig)}
 			if track {
